@@ -3,7 +3,7 @@
 set -u
 PATCH=$1; shift
 S=/tmp/s/repo
-mkdir -p /tmp/s; rsync -a --delete --exclude target --exclude .git /repo/ $S/
+mkdir -p /tmp/s; rsync -a --delete --exclude target --exclude .git --out-format='%n' /repo/ $S/ | while read f; do [ -f "$S/$f" ] && touch "$S/$f"; done   # restored files get a fresh mtime, or cargo keeps the previous mutant's build
 (cd $S && patch -p1 -s < "$PATCH") || { echo "SEEDRUN: patch failed"; exit 3; }
 for P in "$@"; do
   (cd /verif && VERIF_EVIDENCE_DIR=/tmp/s/evidence VERIF_REPO=$S ./check $P 2>&1 | grep -E "VIOLATION|UNDECIDED|KNOWN|^check" | cut -c1-260)
